@@ -308,6 +308,12 @@ var _ sessiontracker.Auditor = &countingAuditor{}
 func scnC15Boundary(rc *RunCtx) {
 	t := rc.Spec
 	k := NewKaudit()
+	switch t.Choose(8, "kernel.clock") {
+	case 6:
+		k = NewKauditAt(time.Unix(9999999999, 0)) // a host whose clock is centuries ahead (year 2286)
+	case 7:
+		k = NewKauditAt(time.Unix(86400, 0)) // a host whose clock was never set (1970)
+	}
 	ne := 2 + t.Choose(2, "nevents")
 	var evs []*KEvent
 	unterminated := 0
